@@ -33,8 +33,9 @@ def strat_paths():
     @st.composite
     def case(draw):
         C = draw(st.integers(2, 7))
-        T = draw(st.integers(1, 14))
-        N = draw(st.integers(1, 5))
+        big = draw(st.integers(0, 9)) == 0          # realistic sizes: hundreds of frames, a full batch
+        T = draw(st.integers(100, 400)) if big else draw(st.integers(1, 14))
+        N = draw(st.integers(6, 16)) if big else draw(st.integers(1, 5))
         blank = C - 1
         sym = st.integers(0, C - 1)
         paths = []
@@ -57,6 +58,13 @@ def strat_paths():
                 p = (p + pat)[off:off + T]
             elif mode == "lastclass":
                 p = [draw(st.sampled_from([max(0, C - 2), blank])) for _ in range(T)]
+            elif big:
+                pr = np.random.RandomState(draw(st.integers(0, 2 ** 31 - 1)))
+                p, cur = [], blank
+                for _ in range(T):
+                    if pr.uniform() < 0.4:
+                        cur = int(pr.randint(0, C))
+                    p.append(cur)
             else:
                 p = [draw(sym) for _ in range(T)]
             paths.append(p)
